@@ -13,6 +13,8 @@ package main
 import (
 	"crypto/tls"
 	"fmt"
+	"io"
+	"log"
 	"net"
 	"net/http"
 	"net/http/httptest"
@@ -264,6 +266,7 @@ func runWTTrial(run *vk.Run, t wtTrial) (datagrams int64) {
 	for try := 0; try < 20 && relay == nil; try++ {
 		ts = httptest.NewUnstartedServer(srv)
 		ts.TLS = &tls.Config{Certificates: []tls.Certificate{cert}}
+		ts.Config.ErrorLog = log.New(io.Discard, "", 0) // aborted TLS handshakes at trial end are not news
 		ts.StartTLS()
 		port := ts.Listener.Addr().(*net.TCPAddr).Port
 		relay, err = newUDPRelay(port, h3conn.LocalAddr().(*net.UDPAddr))
